@@ -266,6 +266,8 @@ def c07(prop, tier, seed, work):
     scs = [
         dict(name="refs", profile="refs", contents=["m1", "m2", "x1", "a1", "a2", "a3", "a4", "a5", "a6", "a7"], algs=["sha256"], depth=(24, 40), num=(30, 300),
              stores=STORES3, obs=["refs", "filters"], mc_contents=["m1", "a1", "a2"], mc_depth=(4, 5), nrepos=1),
+        dict(name="refsgc", profile="gcrefs", contents=["m1", "m2", "a1", "a2", "a3", "a4", "a7"], algs=["sha256"], depth=(24, 40), num=(12, 150),
+             stores=["mem", "dir"], obs=["refs"], nrepos=1, cfg={"withSubj": True, "emptyRepo": False}),
         dict(name="refs512", profile="refs", contents=["m1", "a1", "a8", "a3"], algs=["sha256", "sha512"], depth=(20, 30), num=(10, 100),
              stores=["mem", "dir"], obs=["refs", "filters"], nrepos=2),
     ]
@@ -286,6 +288,48 @@ def c08(prop, tier, seed, work):
 
 
 CHECKS["C08"] = c08
+
+GC_A = ["m1", "m2", "ml", "x1", "x2", "b3"]                          # aliasing, nesting, shared and dangling blobs
+GC_B = ["m1", "m2", "x1", "a1", "a3", "a4", "a6", "a7", "b3"]        # referrers: of images, of referrers, of an index, dangling
+
+
+def gc_scenarios(tier, stores):
+    scs = []
+    for u in (False, True):
+        for g in (False, True):
+            scs.append(dict(name="gcA-%s%s" % ("U" if u else "u", "G" if g else "g"), profile="gc", contents=GC_A, algs=["sha256"],
+                            depth=(24, 40), num=(12, 150), stores=stores, obs=[], nrepos=1,
+                            cfg={"untagged": u, "dangling": False, "withSubj": False, "grace": g, "emptyRepo": False}))
+    for u in (False, True):
+        for d in (False, True):
+            for w in (False, True):
+                for g in (False, True):
+                    name = "gcB-%s%s%s%s" % ("U" if u else "u", "D" if d else "d", "W" if w else "w", "G" if g else "g")
+                    scs.append(dict(name=name, profile="gc", contents=GC_B, algs=["sha256"], depth=(26, 40), num=(4, 50),
+                                    stores=stores, obs=[], nrepos=1,
+                                    cfg={"untagged": u, "dangling": d, "withSubj": w, "grace": g, "emptyRepo": False}))
+    scs[0]["mc_contents"] = ["m1", "a1"]
+    scs[0]["mc_depth"] = (4, 5)
+    return scs
+
+
+def c05(prop, tier, seed, work):
+    return histories(prop, tier, seed, work, gc_scenarios(tier, STORES3), "", "a history is non-trivial if it runs at least one collection after at least one manifest push; distinct = distinct operation sequences; all 16 combinations of Untagged/ReferrersDangling/ReferrersWithSubj/GracePeriod",
+                     {"GC"})
+
+
+def c06(prop, tier, seed, work):
+    scs = gc_scenarios(tier, ["mem", "dir"])
+    for u, w in ((True, True), (True, False), (False, True)):
+        scs.append(dict(name="pass-%s%s" % ("U" if u else "u", "W" if w else "w"), profile="gcpass", contents=["m1", "m2", "x1", "a1", "b3"], algs=["sha256"],
+                        depth=(22, 36), num=(10, 100), stores=["mem", "dir"], obs=[], nrepos=2,
+                        cfg={"untagged": u, "dangling": False, "withSubj": w, "grace": False, "emptyRepo": False}))
+    return histories(prop, tier, seed, work, scs, "", "a history is non-trivial if it runs at least one collection after at least one manifest push; distinct = distinct operation sequences",
+                     {"GC", "GCPass"})
+
+
+CHECKS["C05"] = c05
+CHECKS["C06"] = c06
 
 
 # --------------------------------------------------------------------------- C18: the repository index
